@@ -8,8 +8,69 @@ EXPLANATION = (
     "only: it must not reach an exit of the per-session loop nor an Err return. F3 the filter is a plain field of the per-session "
     "object (never static / Arc / Mutex-shared), constructed fresh with it, and called with a constant limit. F4 constant relations "
     "inside the filter: ring length L (from the array type), shifts S, masks L-1 and 2^S-1, window = (L-1)*2^S = 8128, the forward-jump "
-    "clamp equals L, the limit test comes first, the verdict is old != new. These are necessary conditions, not a proof of the bitmap.")
+    "clamp equals L, the limit test comes first, the verdict is old != new. F5 the table that owns the per-session objects holding a filter is keyed by the "
+    "type of Session::client_session_id alone (one filter per authenticated session id, whatever address a datagram comes from). "
+    "These are necessary conditions, not a proof of the bitmap.")
 ASSUMPTIONS = ["the sliding-window bitmap's answer for all ID histories is NOT decided (needs model checking / proof; out of this technique family)"]
+
+
+def _first_generic(ty):
+    """first generic argument of `Name<A, B, ..>` (top-level comma split)"""
+    i = ty.find("<")
+    if i < 0:
+        return ""
+    depth = 0
+    start = i + 1
+    for j in range(i, len(ty)):
+        ch = ty[j]
+        if ch in "<([":
+            depth += 1
+        elif ch in ">)]":
+            depth -= 1
+            if depth == 0:
+                return ty[start:j].strip()
+        elif ch == "," and depth == 1:
+            return ty[start:j].strip()
+    return ""
+
+
+def _shallow_components(b, local, depth=0):
+    """what a key value is made of, following only moves, copies, references and tuples: names of the fields it is read from"""
+    out = []
+    if depth > 8:
+        return ["?"]
+    ds = b.defs().get(local, [])
+    if not ds:
+        return [f"_{local}" if local > b.argc else f"arg{local}"]
+    for d in ds:
+        if d[0] != "assign":
+            out.append("call-result")
+            continue
+        rv = d[3]["rv"]
+        if rv["k"] in ("use", "cast"):
+            q = op_place(rv.get("op"))
+            if q is None:
+                out.append("constant")
+            else:
+                fields = [str(e[2] if e[2] is not None else e[1]) for e in q[1] if e[0] == "field" and len(e) > 2]
+                if fields:
+                    out.append(fields[-1])
+                else:
+                    out += _shallow_components(b, q[0], depth + 1)
+        elif rv["k"] == "ref":
+            q = rv["p"]
+            fields = [str(e[2] if e[2] is not None else e[1]) for e in q[1] if e[0] == "field" and len(e) > 2]
+            if fields:
+                out.append(fields[-1])
+            else:
+                out += _shallow_components(b, q[0], depth + 1)
+        elif rv["k"] == "agg":
+            for o in rv["ops"]:
+                q = op_place(o)
+                out += _shallow_components(b, q[0], depth + 1) if q is not None else ["constant"]
+        else:
+            out.append(rv["k"])
+    return sorted(set(out))
 
 
 def filter_fn(prog):
@@ -132,6 +193,51 @@ def run(ctx):
         ctx.floor("F3", f"constructions of {last_seg(it['path'])}", 1, len(ctors))
         for (b, s, fresh) in ctors:
             ctx.ob("F3", b.defp, f"{last_seg(it['path'])}:fresh-filter", loc(s["sp"]), fresh, "filter is created fresh with the session object" if fresh else "filter is not created fresh (cloned / shared)")
+
+    # F5: one filter per authenticated session id — the table that owns the per-session objects is keyed by the session id alone
+    sess_id_ty = None
+    for it in prog.items:
+        if it["k"] == "struct" and last_seg(it["path"]) == "Session":
+            for (fname, fty) in it["fields"]:
+                if fname == "client_session_id":
+                    sess_id_ty = fty
+    holder_ctor_fns = set()
+    for (it, fname, fty) in holders:
+        for b in prog.prod_bodies():
+            for blk in b.rpo():
+                for s in b.stmts(blk):
+                    if s["k"] == "assign" and s["rv"]["k"] == "agg" and s["rv"].get("def") == it["path"]:
+                        holder_ctor_fns.add(b.root)
+    n_tab = 0
+    for b in prog.prod_bodies():
+        for (blk, c, t) in b.calls():
+            if c.method != "insert" or len(t["args"]) < 3:
+                continue
+            mp = op_place(t["args"][0])
+            vp = op_place(t["args"][2])
+            if mp is None or vp is None:
+                continue
+            passthru = ("Try::branch", "Result::map_err", "IntoFuture::into_future", "Future::poll", "Pin::new_unchecked", "core::future::get_context", "Pin::new", "From::from")
+            _, vcalls, _ = b.slice_back([vp[0]], stop_call=lambda cc: cc.name not in passthru)
+            if not any(cc.target in holder_ctor_fns or any(prog.bodies[f].root in holder_ctor_fns for f in [cc.target] if f in prog.bodies) for (_, cc, _) in vcalls):
+                continue
+            mlocs, _, _ = b.slice_back([mp[0]], stop_call=lambda cc: True)
+            mty = next((b.local_ty(l) for l in sorted(mlocs) if ("LruCache<" in b.local_ty(l) or "HashMap<" in b.local_ty(l)) and not b.local_ty(l).startswith("&")), None) \
+                or next((b.local_ty(l) for l in sorted(mlocs) if "LruCache<" in b.local_ty(l) or "HashMap<" in b.local_ty(l)), "")
+            kty = _first_generic(mty)
+            n_tab += 1
+            kp = op_place(t["args"][1])
+            comps = _shallow_components(b, kp[0]) if kp is not None else ["?"]
+            ok = sess_id_ty is not None and kty == sess_id_ty and comps == ["client_session_id"]
+            if kty == sess_id_ty and not ok:
+                ctx.ob("F5", b.defp, "session-table-keyed-by-session-id", loc(t["sp"]), False,
+                       f"the key under which a per-session filter holder is stored is built from {comps}, not from Session::client_session_id alone")
+                continue
+            ctx.ob("F5", b.defp, "session-table-keyed-by-session-id", loc(t["sp"]), ok,
+                   f"the table owning the per-session replay filters is keyed by {kty!r}, the type of Session::client_session_id" if ok else
+                   f"the table owning the per-session replay filters is keyed by {kty!r}, not by the session id ({sess_id_ty!r}) alone: one session "
+                   f"gets a second, empty filter whenever the extra key component differs (e.g. the datagram's source address), and ids it already accepted pass again")
+    ctx.floor("F5", "tables that own per-session filter holders", 1, n_tab)
 
     # F4 constants
     for b in ff:
